@@ -1,17 +1,29 @@
-"""Generators of device layouts, user types, sample lists and stream payloads (model syntax)."""
+"""Generators of device layouts, user types, sample lists and stream payloads (model syntax).
+
+Dimensions (finding "generator" of the round-3 review): metadata lengths over the whole 0..255, vector dimensions
+over the whole 1..255, type ids 20..31 for user types with randomly generated format strings, `en` / critical type
+bit / reserved type bits / divider / device flags of the real device object varied through the `x` field of the
+layout, and raw-value sweeps for every standard type (`sweep_values`)."""
 import streamglue as sg
 
 F32 = [0x00000000, 0x80000000, 0x3f800000, 0xbf800000, 0x7f800000, 0xff800000, 0x7fc00000, 0x00000001,
-       0x007fffff, 0x00800000, 0x7f7fffff, 0x40490fdb]
+       0x007fffff, 0x00800000, 0x7f7fffff, 0x40490fdb, 0xffc00001, 0x7fffffff, 0x33800000, 0x4b800000]
 F64 = [0x0, 0x8000000000000000, 0x3ff0000000000000, 0xbff0000000000000, 0x7ff0000000000000, 0xfff0000000000000,
-       0x7ff8000000000000, 0x1, 0x000fffffffffffff, 0x0010000000000000, 0x7fefffffffffffff, 0x400921fb54442d18]
-TEXTS = ["hello", "a", "", "héllo", "名前", "🙂", "x" * 10]
+       0x7ff8000000000000, 0x1, 0x000fffffffffffff, 0x0010000000000000, 0x7fefffffffffffff, 0x400921fb54442d18,
+       0xfff8000000000001, 0x7fffffffffffffff, 0x3ca0000000000000, 0x4340000000000000, 0x47efffffe0000000]
+TEXTS = ["hello", "a", "", "héllo", "名前", "🙂", "x" * 10, "\x7f", "\u0080", "߿", "ࠀ", "￿", "\U00010000",
+         "\U0010ffff", "a\x00b", "퟿", ""]
+# byte strings that are NOT well-formed UTF-8: stray continuation, overlong forms, surrogates, > U+10FFFF, truncated
+BAD_UTF8 = [b"\xff", b"\x80", b"\xc0\x80", b"\xc1\xbf", b"\xe0\x80\x80", b"\xe0\x9f\xbf", b"\xed\xa0\x80", b"\xed\xbf\xbf",
+            b"\xf0\x8f\xbf\xbf", b"\xf4\x90\x80\x80", b"\xf5\x80\x80\x80", b"\xc3", b"\xe2\x82", b"\xf0\x9f\x99", b"\xc3\x28",
+            b"\xfe\xfe\xff\xff"]
 USER_POOL = [
     (sg.NUM, [(4, "i")]), (sg.NUM, [(1, "B"), (1, "h"), (1, "Q")]), (sg.NUM, [(2, "f")]), (sg.NUM, [(1, "d"), (1, "b")]),
     (sg.COMPLEX, [(2, "c"), (2, "i")]), (sg.COMPLEX, [(1, "B"), (3, "s"), (1, "f")]), (sg.COMPLEX, [(1, "?"), (1, "H")]),
     (sg.CHAR, [(5, "s")]), (sg.CHAR, [(1, "s")]),
 ]
 USER_POOL_DECODE_ONLY = [(sg.CHAR, [(3, "c")])]
+NUMCODES = "BbHhIiQqfd"
 
 
 def int_range(code):
@@ -19,12 +31,61 @@ def int_range(code):
     return (-(1 << (bits - 1)), (1 << (bits - 1)) - 1) if code.islower() else (0, (1 << bits) - 1)
 
 
+def float_exact(raw):
+    """raw is exactly an IEEE double (CPython's int -> float conversion is correctly rounded)"""
+    return int(float(raw)) == raw
+
+
+def exact_extremes(code):
+    """the float-exact values nearest to the limits of the type: e.g. (2^53-1)*2^11 for Q, (2^53-1)*2^10 and -2^63 for q"""
+    lo, hi = int_range(code)
+    top = hi if hi < (1 << 53) else ((1 << 53) - 1) << (hi.bit_length() - 53)
+    out = [top, top - (top & -top), lo]
+    if lo < 0:
+        out.append(-top)
+    return out
+
+
+def gen_exact(rng, code):
+    """k * 2^j raws up to the limits of the type"""
+    lo, hi = int_range(code)
+    bits = 8 * sg.SIZE[code] - (1 if lo < 0 else 0)
+    r = rng.random()
+    if r < 0.3:
+        return rng.choice(exact_extremes(code) + [0, 1, 1 << (bits - 1), 1 << (bits - 2), 3 << (bits - 2)]
+                          + ([-1, -(1 << (bits - 1)), -(3 << (bits - 2))] if lo < 0 else []))
+    m = rng.getrandbits(rng.randint(1, 53))
+    j = rng.randint(0, max(0, bits - max(1, m.bit_length())))
+    v = m << j
+    if lo < 0 and rng.random() < 0.5:
+        v = -v
+    return v if lo <= v <= hi else rng.choice(exact_extremes(code))
+
+
 def gen_int(rng, code, encode_fixed=False):
     lo, hi = int_range(code)
     if encode_fixed:
-        lo, hi = max(lo, -(1 << 53) + 1), min(hi, (1 << 53) - 1)
+        return gen_exact(rng, code)
+    k = rng.randrange(8 * sg.SIZE[code])
     return rng.choice([lo, hi, 0, 1, -1 if lo < 0 else 2, hi // 2, lo // 2 if lo < 0 else hi - 1,
-                       rng.randint(lo, hi), rng.randint(lo, hi), rng.randint(max(lo, -300), min(hi, 300))])
+                       rng.randint(lo, hi), rng.randint(lo, hi), rng.randint(max(lo, -300), min(hi, 300)),
+                       min(hi, (1 << k) + rng.choice([-1, 0, 1])), max(lo, -(1 << k) + rng.choice([-1, 0, 1])) if lo < 0 else (hi ^ (1 << k))])
+
+
+def _quiet32(w):
+    # signalling NaNs do not survive float32 -> double -> float32 (the narrowing conversion quiets them): no Python
+    # float encodes to a float32 sNaN, so such a pattern is not a representable sample value (Spec pyExact)
+    if (w & 0x7f800000) == 0x7f800000 and (w & 0x007fffff):
+        w |= 0x00400000
+    return w
+
+
+def _quiet64(w):
+    # a float64 sNaN does survive struct.pack/unpack, but not the encoder's `x * decode.scale` (scale 1.0): arithmetic
+    # quiets it.  NaNs are preserved as a class only; signalling patterns are not representable sample values
+    if (w & 0x7ff0000000000000) == 0x7ff0000000000000 and (w & 0x000fffffffffffff):
+        w |= 0x0008000000000000
+    return w
 
 
 def gen_atom_value(rng, code, size, frac=None, for_encode=False, text=False):
@@ -32,11 +93,11 @@ def gen_atom_value(rng, code, size, frac=None, for_encode=False, text=False):
         v = gen_int(rng, code, encode_fixed=bool(frac) and for_encode)
         return f"x:{v}:{frac}" if frac else f"i:{v}"
     if code == "f":
-        pool = F32 if not for_encode else [x for x in F32]
-        return "f:" + format(rng.choice(pool + [rng.getrandbits(32) & 0xff7fffff | 0]) if rng.random() < 0.8 else rng.choice(F32), "08x") \
-            if not for_encode else "f:" + format(_quiet32(rng.choice(F32 + [rng.getrandbits(32)])), "08x")
+        w = rng.choice(F32 + [rng.getrandbits(32), rng.getrandbits(32)])
+        return "f:" + format(_quiet32(w) if for_encode else w, "08x")
     if code == "d":
-        return "d:" + format(_quiet64(rng.choice(F64 + [rng.getrandbits(64)])) if for_encode else rng.choice(F64 + [rng.getrandbits(64)]), "016x")
+        w = rng.choice(F64 + [rng.getrandbits(64), rng.getrandbits(64)])
+        return "d:" + format(_quiet64(w) if for_encode else w, "016x")
     if code == "?":
         return f"o:{rng.randrange(2)}"
     if code == "c":
@@ -45,36 +106,65 @@ def gen_atom_value(rng, code, size, frac=None, for_encode=False, text=False):
         if text:
             if for_encode or rng.random() < 0.6:
                 t = rng.choice([x for x in TEXTS if len(x.encode()) <= size] or [""]).encode()
-                b = t + bytes(size - len(t))
+                if not for_encode or rng.random() < 0.5:
+                    # fill the field: text, NULs, more text
+                    while len(t) < size and rng.random() < 0.7:
+                        u = rng.choice(TEXTS).encode()
+                        if len(t) + len(u) <= size:
+                            t += u
+                        else:
+                            break
+                b = t if for_encode else t + bytes(size - len(t))
             else:
-                b = bytes(rng.choice([0xff, 0xfe, 0xc3, 0x80, 0x41, 0xe2, 0x28, rng.randrange(256)]) for _ in range(size))
+                bad = rng.choice(BAD_UTF8)
+                filler = bytes(rng.choice([0xff, 0xfe, 0xc3, 0x80, 0x41, 0xe2, 0x28, rng.randrange(256)]) for _ in range(size))
+                at = rng.randrange(0, max(1, size - len(bad) + 1))
+                b = (filler[:at] + bad + filler)[:size] if rng.random() < 0.7 else filler
             return "t:" + sg.hexs(b)
-        b = bytes(rng.randrange(256) for _ in range(size))
+        n = rng.randrange(0, size + 1) if for_encode and rng.random() < 0.5 else size
+        b = bytes(rng.randrange(256) for _ in range(n))
         return "b:" + sg.hexs(b)
     raise ValueError(code)
 
 
-def _quiet32(w):
-    # signalling NaNs do not survive float32 -> double -> float32 in CPython/x86; keep NaNs quiet
-    if (w & 0x7f800000) == 0x7f800000 and (w & 0x007fffff):
-        w |= 0x00400000
-    return w
-
-
-def _quiet64(w):
-    if (w & 0x7ff0000000000000) == 0x7ff0000000000000 and (w & 0x000fffffffffffff):
-        w |= 0x0008000000000000
-    return w
+def gen_user_type(rng, decode_only=False):
+    """a user-defined type (dtype, [(n, code)]) of at most 255 bytes: from the pool or a random format string"""
+    r = rng.random()
+    if r < 0.3:
+        return rng.choice(USER_POOL + (USER_POOL_DECODE_ONLY if decode_only else []))
+    kind = rng.choice([sg.NUM, sg.NUM, sg.COMPLEX, sg.COMPLEX, sg.CHAR])
+    if kind == sg.CHAR:
+        n = rng.choice([1, 2, 5, 16, rng.randrange(1, 256), 255])
+        if decode_only and n >= 2 and rng.random() < 0.25:
+            return (sg.CHAR, [(min(n, 9), "c")])         # several single chars: returned as bytes, not text
+        return (sg.CHAR, [(n, "s")])
+    codes = NUMCODES if kind == sg.NUM else NUMCODES + "cs?" * 2
+    while True:
+        items = []
+        for _ in range(rng.choice([1, 2, 2, 3, 4, rng.randrange(1, 8)])):
+            c = rng.choice(codes)
+            items.append((rng.choice([1, 1, 1, 2, 3, rng.randrange(1, 12), rng.randrange(1, 40) if c == "s" else 1]), c))
+        if 1 <= sg.user_size(items) <= 255:
+            return (kind, items)
 
 
 def gen_user(rng, decode_only=False):
-    pool = USER_POOL + (USER_POOL_DECODE_ONLY if decode_only else [])
-    tys = rng.sample(range(20, 32), rng.randrange(0, 4))
-    return {ty: rng.choice(pool) for ty in tys}
+    tys = rng.sample(range(20, 32), rng.choice([0, 1, 2, 3, 3, 12]))
+    if rng.random() < 0.3 and 31 not in tys:
+        tys.append(31)                                   # the highest type id
+    return {ty: gen_user_type(rng, decode_only) for ty in tys}
+
+
+def gen_vdim(rng):
+    return rng.choice([1, 1, 2, 3, rng.randrange(1, 9), rng.randrange(9, 64), 64, rng.randrange(65, 255), 254, 255, rng.randrange(1, 256)])
+
+
+def gen_mlen(rng):
+    return rng.choice([0, 0, 0, 1, 2, 4, 8, 3, 16, 5, 6, 7, rng.randrange(9, 16), rng.randrange(17, 255), 254, 255, rng.randrange(0, 256)])
 
 
 def gen_layout(rng, user, nmax=8, big=False):
-    n = rng.choice([255, 200]) if big else rng.randrange(1, nmax + 1)
+    n = rng.choice([255, 200, 129]) if big else rng.randrange(1, nmax + 1)
     layout = []
     for _ in range(n):
         ty = rng.choice(list(range(1, 20)) + list(user.keys()) * 3)
@@ -83,22 +173,31 @@ def gen_layout(rng, user, nmax=8, big=False):
         elif ty == 1:
             vdim = 0
         else:
-            vdim = rng.choice([1, 1, 2, 3, rng.randrange(1, 9), rng.choice([64, 255])])
-        mlen = rng.choice([0, 0, 0, 1, 2, 4, 8, 3, 16, rng.choice([5, 255])])
+            vdim = gen_vdim(rng) if not big else rng.choice([1, 2, 3])
+        mlen = gen_mlen(rng) if not big else rng.choice([0, 0, 1, 3, 255])
         layout.append((ty, vdim, mlen))
     return layout
+
+
+def gen_xs(rng, layout):
+    """what else the real device object carries (streamglue.real_device): critical / en / reserved bits / flags / div"""
+    mode = rng.random()
+    if mode < 0.25:
+        return None
+    return [rng.getrandbits(14) if mode < 0.8 else rng.choice([0, 1, 2, 3, 0x3f]) for _ in layout]
 
 
 def gen_sample(rng, layout, user, chan, for_encode=False):
     ty, vdim, mlen = layout[chan]
     vals = []
-    for code, size in sg.sample_atoms(ty, vdim, user):
-        dt = sg.dtype_of(ty, user)
-        text = dt == sg.CHAR and len(sg.sample_atoms(ty, vdim, user)) == 1
+    atoms = sg.sample_atoms(ty, vdim, user)
+    dt = sg.dtype_of(ty, user)
+    text = dt == sg.CHAR and len(atoms) == 1
+    for code, size in atoms:
         vals.append(gen_atom_value(rng, code, size, sg.frac_of(ty), for_encode, text))
     meta = []
     for code, size in sg.meta_atoms(mlen):
-        meta.append(rng.choice([0, 1, (1 << (8 * size)) - 1, rng.getrandbits(8 * size)]))
+        meta.append(rng.choice([0, 1, (1 << (8 * size)) - 1, rng.getrandbits(8 * size), 1 << (8 * size - 1)]))
     return chan, vals, meta
 
 
@@ -107,3 +206,78 @@ def sample_str(layout, user, smp, client_side):
     ty, vdim, mlen = layout[chan]
     dt = sg.dtype_of(ty, user) if client_side else ty
     return f"{chan},{dt},{vdim},{mlen},[{';'.join(vals)}],[{';'.join(str(m) for m in meta)}]"
+
+
+# ---- raw-value sweeps for every standard type ---------------------------------------------------------------------
+
+def interesting_raws(bits):
+    """unsigned bit patterns of a `bits`-wide field: every 2^k, 2^k - 1, 2^k + 1, their complements, byte ramps"""
+    mask = (1 << bits) - 1
+    out = []
+    for k in range(bits + 1):
+        for v in ((1 << k), (1 << k) - 1, (1 << k) + 1, (1 << k) + (1 << (k // 2))):
+            out += [v & mask, ~v & mask]
+    n = bits // 8
+    out += [int.from_bytes(bytes(range(1, n + 1)), "little"), int.from_bytes(bytes(range(0xf0, 0xf0 + n)), "little"),
+            int.from_bytes(bytes([0x80] * n), "little"), int.from_bytes(bytes([0x7f] * n), "little")]
+    seen, res = set(), []
+    for v in out:
+        if v not in seen:
+            seen.add(v)
+            res.append(v)
+    return res
+
+
+def float_patterns(code, T):
+    """bit patterns of float32 / float64: every exponent (float32) or the boundary exponents (float64) with mantissa
+    0 / 1 / quiet bit / all ones, both signs"""
+    if code == "f":
+        exps, eb, mb = range(256), 8, 23
+    else:
+        exps = list(range(0, 2048)) if T else [0, 1, 2, 52, 53, 970, 1022, 1023, 1024, 1075, 1076, 2045, 2046, 2047]
+        eb, mb = 11, 52
+    out = []
+    for e in exps:
+        for m in (0, 1, 1 << (mb - 1), (1 << (mb - 1)) - 1, (1 << mb) - 1):
+            for sgn in (0, 1):
+                out.append((sgn << (eb + mb)) | (e << mb) | m)
+    return out
+
+
+def sweep_values(ty, T, for_encode=False):
+    """model-syntax values of the standard type `ty` to sweep: all raws for 8- and 16-bit types, the interesting bit
+    patterns for the wider ones; for the encoder only values that exist as Python objects (float-exact fixed point,
+    quiet float32 NaNs)"""
+    code, size, frac = sg.STD[ty]
+    bits = 8 * size
+    if code in "fd":
+        pats = float_patterns(code, T) + (F32 if code == "f" else F64)
+        if code == "f":
+            if for_encode:
+                pats = [_quiet32(w) for w in pats]
+            return ["f:" + format(w, "08x") for w in dict.fromkeys(pats)]
+        if for_encode:
+            pats = [_quiet64(w) for w in pats]
+        return ["d:" + format(w, "016x") for w in dict.fromkeys(pats)]
+    if bits <= 16:
+        raws = range(1 << bits)
+    else:
+        raws = interesting_raws(bits)
+    out = []
+    for u in raws:
+        v = u - (1 << bits) if code.islower() and u >> (bits - 1) else u
+        if frac:
+            if for_encode and not float_exact(v):
+                continue
+            out.append(f"x:{v}:{frac}")
+        else:
+            out.append(f"i:{v}")
+    if frac and for_encode and bits == 64:
+        out += [f"x:{v}:{frac}" for v in exact_extremes(code) + [1 << 62, 1 << 53, (1 << 53) + 2, ((1 << 53) - 1) << 9]
+                if int_range(code)[0] <= v <= int_range(code)[1]]
+    return list(dict.fromkeys(out))
+
+
+def chunks(xs, n):
+    for i in range(0, len(xs), n):
+        yield xs[i:i + n]
